@@ -93,6 +93,10 @@ type ledgerEntry struct {
 	// CallersAny: every call site (within the analysed closure) of the function containing the
 	// obligation must be dominated by a guard fact containing one of these strings
 	CallersAny []string `json:"callers_require_any,omitempty"`
+	// CallersParamNonNeg: every call site (in the closure) of the function containing the obligation passes,
+	// for this parameter (1-based; 0 = unused), a constant >= 0 or the caller's own same-named method's
+	// parameter plus a non-negative constant (induction over the call chain)
+	CallersParamNonNeg int `json:"callers_param_nonneg,omitempty"`
 	Assume   bool     `json:"assumption,omitempty"`
 }
 
@@ -457,14 +461,20 @@ func (e *e4Engine) open(in ssa.Instruction, key, detail string) {
 		if len(le.CallersAny) > 0 {
 			missing = append(missing, e.callersMissing(in.Parent(), le.CallersAny)...)
 		}
+		if le.CallersParamNonNeg > 0 {
+			missing = append(missing, e.callersParamNonNeg(in.Parent(), le.CallersParamNonNeg)...)
+		}
 		if len(missing) == 0 {
 			by := "ledger"
-			if le.Assume || len(le.Requires)+len(le.CallersAny) == 0 {
+			if le.Assume || len(le.Requires)+len(le.CallersAny)+le.CallersParamNonNeg == 0 {
 				by = "ledger (reasoned, no machine-checked fact)"
 			} else {
 				by = "ledger + guard facts " + strings.Join(le.Requires, " ∧ ")
 				if len(le.CallersAny) > 0 {
 					by += " + at every call site one of {" + strings.Join(le.CallersAny, " | ") + "}"
+				}
+				if le.CallersParamNonNeg > 0 {
+					by += fmt.Sprintf(" + every call site passes a non-negative value for parameter %d (constant, or the caller's own such parameter + constant)", le.CallersParamNonNeg)
 				}
 			}
 			e.c.R.Ledger(e.rule, key, e.c.P.ipos(in), by, le.Reason)
@@ -473,6 +483,61 @@ func (e *e4Engine) open(in ssa.Instruction, key, detail string) {
 		detail += "; ledger entry exists but its guard fact(s) no longer hold: " + strings.Join(missing, ", ")
 	}
 	e.c.R.Violation(e.rule, key, e.c.P.ipos(in), detail)
+}
+
+// callersParamNonNeg: see ledgerEntry.CallersParamNonNeg
+func (e *e4Engine) callersParamNonNeg(f *ssa.Function, prm int) []string {
+	var missing []string
+	n := 0
+	// the family: functions with the same method name (mutually recursive printers)
+	for _, g := range e.funcs {
+		allInstrs(g, func(in ssa.Instruction) {
+			ci, ok := in.(ssa.CallInstruction)
+			if !ok {
+				return
+			}
+			hit := false
+			for _, cal := range e.c.P.Callees(ci) {
+				if cal == f {
+					hit = true
+				}
+			}
+			if !hit {
+				return
+			}
+			n++
+			cc := ci.Common()
+			idx := prm
+			if cc.IsInvoke() {
+				idx = prm - 1
+			}
+			if idx < 0 || idx >= len(cc.Args) {
+				missing = append(missing, "call site "+e.c.P.ipos(in)+": parameter not found")
+				return
+			}
+			a := cc.Args[idx]
+			ok2 := e.nonNegative(a)
+			if !ok2 {
+				// own parameter (+ constant) of a same-named method: induction hypothesis
+				base := a
+				if bo, isBo := a.(*ssa.BinOp); isBo && bo.Op == token.ADD {
+					if k, isK := intConst(bo.Y); isK && k >= 0 {
+						base = bo.X
+					}
+				}
+				if p, isP := base.(*ssa.Parameter); isP && p.Parent().Name() == f.Name() {
+					ok2 = true
+				}
+			}
+			if !ok2 {
+				missing = append(missing, "call site "+e.c.P.ipos(in)+" in "+shortName(g)+" passes "+e.c.Sx().Of(a).String())
+			}
+		})
+	}
+	if n == 0 {
+		missing = append(missing, "no call site of "+shortName(f)+" in the closure")
+	}
+	return missing
 }
 
 // factMatches: a requirement is "<substring>=><true|false>" (or just a substring): some guard fact
